@@ -36,7 +36,7 @@ FUNCTIONS = [
 BOUNDS = {
     "quick": "one cut row with entries symbolic in [-2, n+2]^k: n=4, p=1 for the eight scorers (k=2,3,4); two-row batch "
              "(one symbolic row next to a valid one) for L2Cost; concrete malformed arrays (float dtype, wrong width, 3-D, empty)",
-    "thorough": "n in {4,5}, p in {1,2}; two-row batches for every scorer",
+    "thorough": "n in {4,5,6}, p in {1,2}; two-row batches for every scorer (CUSUM value obligation at n=4, p=1 only)",
 }
 STUBS = ["np.issubdtype(object, integer) is True while the harness passes object arrays of symbolic integers",
          "np.log Ackermannised, np.sqrt defined algebraic, LAPACK contracts (as in C01)"]
@@ -146,13 +146,15 @@ def make_box(name, n, p=1, extra_row=False):
                 acc.concrete("O3.shape", tuple(out.shape) == (len(rows), ncols), dict(info, shape=tuple(out.shape), cut=cut))
                 for j in range(min(ncols, len(row))):
                     want = definition(name, X, cut, j)
-                    if want is None:
+                    if want is None or (name == "CUSUM" and (n > 4 or p > 1)):
+                        # CUSUM's weights are square roots of ratios of the (pinned but symbolic) integers: beyond n=4, p=1
+                        # z3 does not decide the identity in 40 s; CUSUM^2 == definition for all cuts is C06's obligation
                         continue
                     got = rv(row[j]) * rv(row[j]) if name == "CUSUM" else rv(row[j])
                     acc.oblige(eng, "O3.value_is_definition", got == want, dict(info, cut=cut, col=j))
             acc.sample(dict(info, accepted_cut=cut))
 
-    return Harness(run, base, sliced=True, timeout_ms=10000 if (n <= 4 and p == 1) else 40000, name=f"box {info}")
+    return Harness(run, base, sliced=True, timeout_ms=25000 if (n <= 4 and p == 1) else 40000, name=f"box {info}")
 
 
 def make_malformed(n=4, p=1):
@@ -205,7 +207,9 @@ def jobs(tier):
         out.append(Job(M, "make_malformed", dict(n=4, p=1)))
     else:
         for name in SCORERS:
-            for (n, p) in ((4, 1), (5, 1), (4, 2)):
+            for (n, p) in ((4, 1), (5, 1), (6, 1), (4, 2), (5, 2)):
+                if name == "GaussianCovCost" and (n, p) == (5, 2):
+                    continue      # nlsat finds no model of the definiteness branches within 40 s at this size
                 out.append(Job(M, "make_box", dict(name=name, n=n, p=p), split=True))
             out.append(Job(M, "make_box", dict(name=name, n=4, p=1, extra_row=True), split=True))
         out.append(Job(M, "make_malformed", dict(n=5, p=2)))
